@@ -60,6 +60,8 @@ type KnownFinding struct {
 	What     string `json:"what"`
 	Commit   string `json:"commit,omitempty"`
 	Witness  any    `json:"witness,omitempty"`
+	// Params restricts the entry to harness instances whose parameters take one of the listed values.
+	Params map[string][]int `json:"params,omitempty"`
 }
 
 const module = "github.com/TheManticoreProject/Manticore"
@@ -464,11 +466,13 @@ func main() {
 		// batch per package: up to 3 candidates per key + co-simulation witnesses
 		perPkg := map[string][]candidate{}
 		for _, k := range keyOrder {
-			cs := byKey[k]
-			if len(cs) > 3 {
-				cs = cs[:3]
-			}
-			for _, c := range cs {
+			cnt := map[bool]int{}
+			for _, c := range byKey[k] {
+				isKnown := matchKnown(known, k, c.v.Params) != nil
+				if cnt[isKnown] >= 3 {
+					continue
+				}
+				cnt[isKnown]++
 				perPkg[c.pkg] = append(perPkg[c.pkg], c)
 			}
 		}
@@ -504,13 +508,17 @@ func main() {
 					}
 					continue
 				}
-				if confirmed[c.v.Key] != nil {
+				ck := c.v.Key
+				if matchKnown(known, c.v.Key, c.v.Params) != nil {
+					ck = c.v.Key + "\x00known"
+				}
+				if confirmed[ck] != nil {
 					continue
 				}
 				if reproduces(c.v, res) {
 					cc := c
 					cc.v.Msg = c.v.Msg + " | native: " + res.result
-					confirmed[c.v.Key] = &cc
+					confirmed[ck] = &cc
 					delete(unconfirmed, c.v.Key)
 				} else {
 					unconfirmed[c.v.Key] = res.result
@@ -523,16 +531,20 @@ func main() {
 	} else {
 		for _, k := range keyOrder {
 			c := byKey[k][0]
-			confirmed[k] = &c
+			ck := k
+			if matchKnown(known, k, c.v.Params) != nil {
+				ck = k + "\x00known"
+			}
+			confirmed[ck] = &c
 		}
 	}
 	var masked []string
 	for k, r := range unconfirmed {
-		if mb, ok := maskedBy[k]; ok && confirmed[mb] != nil {
+		if mb, ok := maskedBy[k]; ok && (confirmed[mb] != nil || confirmed[mb+"\x00known"] != nil) {
 			masked = append(masked, fmt.Sprintf("%s (candidate masked natively by the confirmed failure of %s)", k, mb))
 			continue
 		}
-		if confirmed[k] == nil {
+		if confirmed[k] == nil && confirmed[k+"\x00known"] == nil {
 			incon = append(incon, fmt.Sprintf("UNCONFIRMED counterexample for %s: native replay gave %q (encoding or stub fault; not reported as violation)", k, r))
 		}
 	}
@@ -545,14 +557,15 @@ func main() {
 		ckeys = append(ckeys, k)
 	}
 	sort.Strings(ckeys)
-	for _, k := range ckeys {
-		c := confirmed[k]
-		path := filepath.Join(replayDir, sanitize(k)+".json")
+	for _, ck := range ckeys {
+		c := confirmed[ck]
+		k := c.v.Key
+		path := filepath.Join(replayDir, sanitize(ck)+".json")
 		rec := map[string]any{"property": prop, "obligation": k, "package": module + "/" + c.pkg, "pkg_rel": c.pkg, "harness": c.harness,
 			"harness_dirs": spec.HarnessDirs, "params": c.v.Params, "inputs": c.v.Inputs, "kind": c.v.Kind, "observed": c.v.Msg, "where": c.v.Where, "replayed": !*noReplay}
 		jb, _ := json.MarshalIndent(rec, "", " ")
 		os.WriteFile(path, jb, 0o644)
-		if kf := matchKnown(known, k); kf != nil {
+		if kf := matchKnown(known, k, c.v.Params); kf != nil {
 			knownLines = append(knownLines, fmt.Sprintf("KNOWN-FINDING: property=%s %s — %s", prop, k, kf.What))
 			continue
 		}
@@ -588,10 +601,12 @@ func main() {
 		status := "proved"
 		if o.Violated > 0 {
 			status = "violated"
-			if confirmed[o.Key] == nil {
-				status = "violated-unconfirmed"
-			} else if matchKnown(known, o.Key) != nil {
+			if confirmed[o.Key] != nil {
+				status = "violated"
+			} else if confirmed[o.Key+"\x00known"] != nil {
 				status = "known-finding"
+			} else {
+				status = "violated-unconfirmed"
 			}
 		} else if o.Unknown > 0 {
 			status = "unknown"
@@ -732,9 +747,25 @@ func loadKnown(prop string) []KnownFinding {
 	return out
 }
 
-func matchKnown(known []KnownFinding, key string) *KnownFinding {
+func matchKnown(known []KnownFinding, key string, params map[string]int) *KnownFinding {
 	for i := range known {
-		if known[i].Key == key {
+		if known[i].Key != key {
+			continue
+		}
+		ok := true
+		for p, vals := range known[i].Params {
+			v, has := params[p]
+			in := false
+			for _, x := range vals {
+				if has && x == v {
+					in = true
+				}
+			}
+			if !in {
+				ok = false
+			}
+		}
+		if ok {
 			return &known[i]
 		}
 	}
